@@ -78,5 +78,16 @@ def run(ctx):
     from .c07 import check_accumulators
 
     check_accumulators(ctx, P, ("BlsSignatureCore::aggregate_signatures", "BlsSignatureCore::aggregate_public_keys"))
+    # CoreAggregateVerify of the draft: one pairing input (H(m_i), pk_i) per list entry - none merged, skipped or built
+    # from another entry's message - so that what the reference verifier accepts is accepted
+    fkc = "BlsSignatureCore::core_aggregate_verify"
+    fc = ctx.need_fn("E4.loop", fkc)
+    if fc is not None:
+        ents = F.entry_builders(P, fc)
+        for e in ents:
+            ctx.ob("E4.loop", fkc + "/every-entry", e["every"], "every list entry yields its own (hash_to_point(msg,dst), pk) pairing input or an error (%s)" % e["mode"], where=where(e["fn"], e["bb"]))
+        if not ents:
+            ctx.ob("E4.loop", fkc + "/every-entry", False, "no per-entry construction of pairing inputs found", where=where(fc))
+        F.check_entry_pair_form(ctx, "E5.equation", P, fkc, ents)
     ctx.assume("GroupEncoding::to_bytes of both backends is the ZCash/IETF compressed serialization (dependency contract)")
     ctx.assume("the backend's hash::<ExpandMsgXmd<Sha256>> implements hash_to_curve SSWU_RO of RFC 9380 (dependency contract)")
